@@ -250,6 +250,13 @@ def run(prop, tier=None, replay=None):
                 # ... or a chain of 150 or more binary operators in one statement (a left-nested tree of that depth)
                 chain = max([len([1 for ch in ln if ch in "+-*/"]) for ln in (c["src"] if isinstance(c["src"], str) else "").split("\n")] or [0])
                 sig["expression_nested_30_brackets_or_150_operators_deep"] = best >= 30 or chain >= 150
+            if o.get("type") == "SystemExit" and str(o.get("site", "")).endswith("FortranReaderBase.error"):
+                # known finding KF-C06-2 is about a construct name that no statement follows ('name:' alone, before a comment or a
+                # continuation mark) - any other way into reader.error() is a different escape
+                import re as _re
+                text = c["src"] if isinstance(c["src"], str) else ""
+                sig["a_construct_name_is_followed_by_no_statement"] = any(
+                    _re.match(r"\s*(\d+\s*)?(&\s*)?[A-Za-z]\w*\s*:\s*(&\s*)?(!.*)?$", ln) for ln in _re.split(r"[\n;]", text))
             what = "C06: %s escaped from %s (via %s)%s: %s" % (o.get("type"), o.get("site"), o.get("via"), " while printing" if o.get("while") else "", o.get("msg"))
         src = c["src"] if c["fam"] != "badbyte" else repr(bytes(c["src"]))
         chk.violation(sig, what + "\n" + str(src)[:500], {"src": c["src"], "prov": c["prov"], "fam": c["fam"]})
@@ -263,5 +270,5 @@ def run(prop, tier=None, replay=None):
     chk.cov["rule"] = ("inputs = single mutations (Perturb.tla AddMut: 8 positions x 25 operations) of the statement carrying each catalogue variant (quick: fixed 1/k stride sample), "
                        "1-3 step mutations of simulated programs, random text, files with invalid UTF-8; one evaluation = one (input, standard, comment mode) parse+print; "
                        "distinct_nontrivial = distinct inputs")
-    chk.assumptions = ["time bound %d s per input" % CASE_TIMEOUT_S, "known escapes are keyed by (exception type, innermost fparser frame, calling fparser frame)"]
+    chk.assumptions = ["time bound %d s per input" % CASE_TIMEOUT_S, "known escapes are keyed by (exception type, innermost fparser frame, calling fparser frame) and, for those that leave through reader.error(), by the shape of the input that the finding names"]
     return chk.finish()
